@@ -346,10 +346,17 @@ func writeEvidence(o *checkOpts, out *checkOutcome, violations int, knownSeen []
 	var slow []map[string]any
 	var samples []any
 	covers := 0
+	isKnown := map[string]bool{}
+	for _, k := range knownSeen {
+		isKnown[k] = true
+	}
 	for _, r := range out.results {
 		if r.Obl.Expect == "sat" {
 			covers++
 			continue
+		}
+		if isKnown[r.Obl.Name] {
+			continue // listed known finding: reported separately, not counted as an obligation of the proof
 		}
 		n++
 		if r.Status == "unsat" {
@@ -374,16 +381,19 @@ func writeEvidence(o *checkOpts, out *checkOutcome, violations int, knownSeen []
 	fn, fd := 0, 0
 	var frameSamples []any
 	for _, f := range out.frame {
+		if isKnown[f.Name] {
+			continue
+		}
 		fn++
 		if f.OK {
 			fd++
 		}
 		if len(frameSamples) < 4 {
-			frameSamples = append(frameSamples, map[string]any{"obligation": f.Name, "backend": "goframe", "ok": f.OK, "detail": f.Detail})
+			frameSamples = append(frameSamples, map[string]any{"obligation": f.Name, "backend": f.Backend, "ok": f.OK, "detail": f.Detail})
 		}
 	}
 	if fd > 0 {
-		byBackend["goframe"] = map[string]float64{"count": float64(fd)}
+		byBackend["goframe+ground"] = map[string]float64{"count": float64(fd)}
 	}
 	samples = append(samples, frameSamples...)
 	trusted := map[string]bool{}
